@@ -279,6 +279,13 @@ Fixpoint run_steps (ss : list sstep) (t : path) (f : font_abs) (m : sfs) : outco
 (** [Font::save(path)] *)
 Definition save (f : font_abs) (t : path) (m : sfs) : outcome * sfs := run_steps save_steps t f m.
 
+(** the font after [save] returned: when the four validators passed, the loop over the stores
+    has run, so every cell that was not loaded is now loaded or in error - whether the save then
+    succeeded or was refused (the cell states are threaded through a history of saves) *)
+Definition font_after (f : font_abs) (m : sfs) : font_abs :=
+  if refuses RVersion f || refuses RObjLibs f || refuses RGroups f || refuses RInfo f then f
+  else set_stores f (force_store false DATA_DIR m (fa_data f)) (force_store true IMAGES_DIR m (fa_images f)).
+
 (** * Specification side *)
 
 (** layer directories and glif file names are single plain components; store keys non-empty *)
